@@ -23,10 +23,13 @@ PROPERTY = 'C11'
 LEVEL = 'exploration'
 EXHAUSTIVE = True
 TIMEOUT_S = 30
-# Faults written in a section that only applies to a platform other than the one being loaded (and wrongly typed
-# values that a higher layer overrides for every component) are observed and counted but not judged: the statement
-# does not say whether such a workflow "contains" the fault for this load. Set to True to judge them as well.
-JUDGE_INACTIVE = False
+# The statement says "a workflow CONTAINING an unknown option key / a wrongly typed option ... is rejected". With True,
+# a fault written in a section of a platform other than the one being loaded ('inactive') and a wrongly typed value
+# that a higher layer overrides for every component / of a variable nobody uses ('ineffective') count as contained
+# (the same loader called with primitive=True does reject every one of them); the scope is part of the failure
+# signature so the classes stay separate. With False only faults that shape the loaded platform are judged, the
+# others are observed and counted.
+JUDGE_INACTIVE = True
 
 RULE = ('25 well-formed base workflows (chains, diamond, colliding names A/AA/BA/AB, same name in two stages, global/'
         'stage/component/indirect/platform variables, replicate+aggregate, a DoWhile placeholder, direct and '
@@ -37,8 +40,10 @@ RULE = ('25 well-formed base workflows (chains, diamond, colliding names A/AA/BA
         'name minus last letter and every other component name; consistently in references+arguments / in the '
         'references list only); add reference u->v for every pair (u,v) with v transitively depending on u, and u=v; '
         'copy the name of component i into component j of the same stage; misspell every schema key at every nesting '
-        'level (2 typos, 3 in thorough); replace every typed value/section by two values of an unambiguously wrong '
-        'type; remove every variable definition that is referenced. Main document and DoWhile document are both '
+        'level (quick: 2 typos down to depth 3 and 1 below, thorough: 3 everywhere); replace every typed value/section '
+        'by two (thorough: three for numbers/booleans) values of an unambiguously wrong type; add an unknown key to '
+        'every dict whose keys the schema fixes; (thorough) set every schema option the first component does not set '
+        'to a wrongly typed value; remove every variable definition that is referenced. Main document and DoWhile document are both '
         'mutated. Each mutated document is classified from the statement by the reference model (valid / broken by '
         'fault kinds / open) BEFORE it is loaded. Judged at F: accepted => DAG over graph edges plus reference-implied '
         'edges, unique ids, every component reference is a node or loop placeholder, every node configuration resolves; '
@@ -113,7 +118,8 @@ def observe(cfg, wg):
     except Exception as e:
         return {'graph_error': '%s: %s' % (type(e).__name__, str(e)[:300])}
     concrete = cfg.get_flowir_concrete(return_copy=False)
-    obs['component_ids'] = ['stage%s.%s' % (c.get('stage', 0), c.get('name')) for c in concrete.get_components()]
+    obs['component_ids'] = ['stage%s.%s' % (c.get('stage', 0), c.get('name')) for c in concrete.get_components()
+                            if '$import' not in c]   # the importing entry is a document, not a component
     for n in obs['nodes']:
         try:
             conf = cfg.configurationForNode(n, raw=False, is_primitive=False)
@@ -178,13 +184,12 @@ def judge(col, case, scratch):
     texts, platform, nonc = case['texts'], case['platform'], case['nonc']
     root = root_from_texts(texts)
     an = V.analyse(root, platform, nonc)
-    faults = an.faults()
-    inactive = []
-    if not faults:
-        inactive = [g for g in an.grey_classes() if g.startswith(('unknown-key-', 'wrong-type-'))]
-        if JUDGE_INACTIVE and inactive:
-            faults = sorted(set(g.rsplit('-', 1)[0] if not g.endswith('ineffective') else 'wrong-type' for g in inactive))
-    verdict = 'broken' if faults else an.verdict()
+    faults = an.faults(JUDGE_INACTIVE)
+    fscopes = an.fault_scopes(JUDGE_INACTIVE)
+    scopes = sorted(set(s for k in ('unknown-key', 'wrong-type') for s in fscopes.get(k, [])))
+    where = ('@' + '+'.join(scopes)) if scopes else ''
+    inactive = [] if faults else [g for g in an.grey_classes() if g.startswith(('unknown-key-', 'wrong-type-'))]
+    verdict = an.verdict(JUDGE_INACTIVE)
     kind = case['mut']['kind'] if case['mut'] else 'base'
     if case['mut'] is None and verdict != 'valid':
         raise HarnessError('base %s (platform %s) is not valid for the reference model: %r %r'
@@ -194,7 +199,7 @@ def judge(col, case, scratch):
     pkg = write_pkg(d, texts, case['files'])
     col.evaluated()
     col.nontriv([case['base'], platform, case['mut']])
-    tag = 'broken[%s]' % '+'.join(faults) if faults else ('open[%s]' % '+'.join(an.grey_classes())[:60] if verdict == 'grey' else 'valid')
+    tag = 'broken[%s%s]' % ('+'.join(faults), where) if faults else ('open[%s]' % '+'.join(an.grey_classes())[:60] if verdict == 'grey' else 'valid')
     for entry, loader in (('F', load_factory), ('G', load_graph)):
         try:
             res, etype, msg, obs = timed(loader, pkg, platform)
@@ -231,10 +236,10 @@ def judge(col, case, scratch):
         if entry == 'F' and faults:
             if res == 'accepted':
                 col.fail(c, 'F accepted a workflow that contains: %s (%s)' % (', '.join(faults), _describe(an)), info,
-                         sig='F:accepted:%s' % '+'.join(faults))
+                         sig='F:accepted:%s%s' % ('+'.join(faults), where))
             elif res == 'raised':
                 col.fail(c, 'F rejected a workflow containing %s with %s instead of the invalid-configuration error: %s'
-                         % (', '.join(faults), etype, msg), info, sig='F:wrong-exception:%s:%s' % (etype, '+'.join(faults)))
+                         % (', '.join(faults), etype, msg), info, sig='F:wrong-exception:%s:%s%s' % (etype, '+'.join(faults), where))
         elif entry == 'G' and faults and res == 'accepted':
             col.count('observed_G_accepted_broken')
         if not faults and verdict == 'valid' and case['mut'] is not None and res != 'accepted':
@@ -311,4 +316,101 @@ def replay(ctx, case):
 
 
 # ------------------------------------------------------------------------------------------------ known findings
-KNOWN_SELECTORS = {}
+def _accepted(f):
+    """(fault kinds, scopes) when the failure is 'F accepted a broken document', else None."""
+    sig = f.get('sig') or ''
+    if not sig.startswith('F:accepted:') or f['case'].get('entry') != 'F':
+        return None
+    kinds, _, scopes = sig[len('F:accepted:'):].partition('@')
+    return set(kinds.split('+')), set(scopes.split('+')) if scopes else set()
+
+
+def _instantiation_case(f):
+    """Common part of the two 'validated after instantiation' selectors: returns (mutation, path, scopes) or None."""
+    a = _accepted(f)
+    m = f['case'].get('mut') or {}
+    if a is None or m.get('kind') not in ('misspell', 'mistype', 'addkey') or a[0] - {'unknown-key', 'wrong-type'}:
+        return None
+    return m, list(m['path']), a[1]
+
+
+def _sel_sections_validated_after_instantiation(f):
+    """Only the platform *instance* of the document is validated when primitive=False. Document-level part: unknown
+    top-level sections, unknown scope labels next to global/stages, a malformed `version`, and anything wrong inside
+    the variables / blueprint / ... sections of another platform or overridden by the loaded platform."""
+    c = _instantiation_case(f)
+    if c is None:
+        return False
+    m, path, scopes = c
+    if path[:2] == ['doc', 'components'] or path[:1] != ['doc']:
+        return False
+    if scopes and scopes <= {'inactive', 'ineffective'}:
+        return True
+    if scopes != {'active'}:
+        return False
+    if m['kind'] == 'misspell':
+        return path == ['doc'] or (len(path) == 3 and path[1] in ('variables', 'blueprint') and m['key'] in ('global', 'stages'))
+    if m['kind'] == 'addkey':
+        return path == ['doc'] or (len(path) == 3 and path[1] in ('variables', 'blueprint'))
+    return path == ['doc', 'version']
+
+
+def _sel_component_layers_validated_after_instantiation(f):
+    """Same cause, component-level part: a fault inside `override.<platform that is not loaded>` of a component, or a
+    wrongly typed value of a component that `override.<loaded platform>` replaces."""
+    c = _instantiation_case(f)
+    if c is None:
+        return False
+    m, path, scopes = c
+    return path[:2] == ['doc', 'components'] and bool(scopes) and scopes <= {'inactive', 'ineffective'}
+
+
+def _sel_import_entry_errors_dropped(f):
+    """FlowIRConcrete.validate discards what validate_component reports for a `$import` entry."""
+    a = _accepted(f)
+    m = f['case'].get('mut') or {}
+    if a is None or a != ({'unknown-key'}, {'active'}) or m.get('kind') != 'addkey':
+        return False
+    path = list(m['path'])
+    if len(path) != 3 or path[:2] != ['doc', 'components']:
+        return False
+    try:
+        comps = yaml.safe_load(f['case']['texts']['conf/flowir_package.yaml'])['components']
+        return '$import' in comps[path[2]]
+    except Exception:
+        return False
+
+
+def _sel_word_coerced_to_true(f):
+    """bool('anything') is True: aggregate / isMigratable / isMigrated / optimizer.disable given as a word are accepted
+    (and a replicating component whose `aggregate` became True that way cannot be expanded afterwards)."""
+    m = f['case'].get('mut') or {}
+    if m.get('kind') not in ('mistype', 'setopt') or not isinstance(m.get('value'), str):
+        return False
+    path = list(m['path']) + list(m.get('option', []))
+    if f.get('sig') == 'F:unsound:graph-build-raises:FlowIRVariableUnknown':
+        return path[-2:] == ['workflowAttributes', 'aggregate'] and 'replica' in str((f.get('observed') or {}).get('obs'))
+    a = _accepted(f)
+    if a is None or a != ({'wrong-type'}, {'active'}):
+        return False
+    return (path[-2:-1] == ['workflowAttributes'] and path[-1] in ('aggregate', 'isMigratable', 'isMigrated')) or \
+        path[-3:] == ['workflowAttributes', 'optimizer', 'disable']
+
+
+def _sel_stage_weight_word(f):
+    """A stage-weight that is not a number is silently replaced by the default weights."""
+    a = _accepted(f)
+    m = f['case'].get('mut') or {}
+    if a is None or a != ({'wrong-type'}, {'active'}) or m.get('kind') != 'mistype' or not isinstance(m.get('value'), str):
+        return False
+    path = list(m['path'])
+    return len(path) == 4 and path[:2] == ['doc', 'status-report'] and path[3] == 'stage-weight'
+
+
+KNOWN_SELECTORS = {
+    'sections_validated_after_instantiation': _sel_sections_validated_after_instantiation,
+    'component_layers_validated_after_instantiation': _sel_component_layers_validated_after_instantiation,
+    'import_entry_errors_dropped': _sel_import_entry_errors_dropped,
+    'word_coerced_to_true': _sel_word_coerced_to_true,
+    'stage_weight_word_replaced': _sel_stage_weight_word,
+}
